@@ -485,7 +485,11 @@ def at_most_once(ctx, facts, roles, u, name, cfg, K2="K2"):
             if b1.key == b2.key and s1.bi == s2.bi and o1 is not None and o2 is not None and (o1.body.key != b1.key or o1.bi != s1.bi):
                 # both evaluations sit inside one invocation of a helper (described at the helper's one call site):
                 # whether one run reaches both is decided inside the helper
-                if o1.body.key == o2.body.key:
+                if o1.body.key == o2.body.key and not same_iter and o1.body.kind != "closure":
+                    # an element of the walk and an operand named after it (`args.last()` once the loop is over): the second
+                    # site is reached from the first by leaving the loop — any path counts, not only those inside one iteration
+                    co = o2.bi in o1.body.reachable(o1.bi) or o1.bi in o1.body.reachable(o2.bi)
+                elif o1.body.key == o2.body.key:
                     co = same_iteration_reach(o1.body, o1.bi, o2.bi) or same_iteration_reach(o1.body, o2.bi, o1.bi) or o1.bi == o2.bi
                 else:
                     co = True
